@@ -168,7 +168,7 @@ CheckHist(r) ==
 \* ---------------------------------------------------------------- model-level conformance of call histories (drift only)
 \* the store-level transcriptions of grounded / complete / stable (AdfRobddOps) and the extra formulas follow the recorded
 \* history from the real pre-state and must predict every raw answer (handles and order) and the final node table
-Followable == {"grounded", "complete", "stable", "bddop"}
+Followable == {"grounded", "complete", "stable", "prefilter", "bddop"}
 
 RECURSIVE ExtraOps(_, _, _, _)
 ExtraOps(St, ops, i, nv) ==
@@ -186,6 +186,7 @@ RunCalls(St, ac, calls, i, ok) ==
        ELSE LET x == CASE c.c = "grounded" -> LET g == GroundedInternalR(St, ac) IN R(g.S, <<g.r>>)
                        [] c.c = "complete" -> CompleteR(St, ac)
                        [] c.c = "stable"   -> StableR(St, ac)
+                       [] c.c = "prefilter" -> PrefilterR(St, ac)
             IN RunCalls(x.S, ac, calls, i + 1, x.r = c.a)
 
 \* Adf::facet_count / Adf::formulacounts: the model-count half is exact for every term, constants included
